@@ -122,6 +122,7 @@ package flyt
 //@   ensures [C03] forall n Node :: forall a Action :: nextNode(f, n, a) == ((n == from && a == action) ? to : old(nextNode(f, n, a)))
 
 //@ func (*Flow).Run(f, ctx, shared) (err)
+//@   widen [C01,C02,C18,C20]
 //@   requires f != nil && ctx != nil
 //@   havoc user
 //@   ghost n int = 0; re error = nil
@@ -995,13 +996,13 @@ package flyt
 //@     requires [C06] ph == 1 && perr == nil && c == ctx && n == node && normalized(its, pv, ts) && len(its) > 0
 //@     requires [C06] len(rs) == len(its) && fresh(sarr(rs))
 //@     requires [C08] batchConc(node) <= 0
-//@     requires [C09] eh == batchMode(node)
+//@     requires [C07,C09] eh == batchMode(node)
 //@     effect ph = 2; gItems = its; gRes = rs
 //@   on call runBatchConcurrent(c, n, its, rs, k, eh)
 //@     requires [C06] ph == 1 && perr == nil && c == ctx && n == node && normalized(its, pv, ts) && len(its) > 0
 //@     requires [C06] len(rs) == len(its) && fresh(sarr(rs))
 //@     requires [C08] k == batchConc(node) && k > 0
-//@     requires [C09] eh == batchMode(node)
+//@     requires [C07,C09] eh == batchMode(node)
 //@     effect ph = 2; gItems = its; gRes = rs
 //@   on call Node.Post(n, c, s, p, r) returns (a, e)
 //@     requires [C06] n == node && c == ctx && s == shared && nPost == 0 && perr == nil && isType(p, []Result) && isType(r, []Result)
@@ -1138,8 +1139,8 @@ package flyt
 //@     requires [C08] k == concurrency && pool == nil
 //@     effect pool = p
 //@   on call (*WorkerPool).Submit(p, task)
-//@     requires [C06,C07] p == pool && !waited && 0 <= i && i < len(items) && isClosure(task, "runBatchConcurrent$1")
-//@     requires [C06,C07] *binding(task, "runBatchConcurrent$1", idx) == i && *binding(task, "runBatchConcurrent$1", itm) == items[i] && *binding(task, "runBatchConcurrent$1", results) == results
+//@     requires [C06,C07,C08] p == pool && !waited && 0 <= i && i < len(items) && isClosure(task, "runBatchConcurrent$1")
+//@     requires [C06,C07,C08] *binding(task, "runBatchConcurrent$1", idx) == i && *binding(task, "runBatchConcurrent$1", itm) == items[i] && *binding(task, "runBatchConcurrent$1", results) == results
 //@     requires [C06,C07] binding(task, "runBatchConcurrent$1", idx) != binding(task, "runBatchConcurrent$1", shouldStop) && fresh(binding(task, "runBatchConcurrent$1", idx)) && fresh(binding(task, "runBatchConcurrent$1", itm))
 //@     requires [C09] binding(task, "runBatchConcurrent$1", mu) == alloc(sync.Mutex, 1) && binding(task, "runBatchConcurrent$1", shouldStop) == alloc(bool, 1) && *binding(task, "runBatchConcurrent$1", errorHandling) == errorHandling
 //@     requires [C02,C05,C07,C11] *binding(task, "runBatchConcurrent$1", ctx) == ctx && *binding(task, "runBatchConcurrent$1", node) == node
